@@ -32,7 +32,7 @@ Print Assumptions C01_reconstruct_exact.
    found); parity = any subset of the true recovery blocks, indexed by exponent.  Repair's
    reconstruction yields exactly the original slices or one of the two permitted errors, with and
    without the double-check. *)
-From Gopar Require Import Model.CRC Model.GoPath Model.FS Model.Par2 Proofs.Par2Facts Proofs.Par2Clean Proofs.Par2Converge Proofs.Par2RepairComplete Proofs.Par2EndToEnd.
+From Gopar Require Import Model.CRC Model.GoPath Model.FS Model.Par2 Proofs.Par2Facts Proofs.Par2Clean Proofs.Par2Converge Proofs.Par2RepairComplete Proofs.Par2EndToEnd Proofs.Par2EndToEnd2.
 Open Scope N_scope.
 Theorem C01_repair_shards_exact : forall orig kd kp L dbl,
   let nd := length orig in
@@ -144,3 +144,36 @@ Theorem C01_create_damage_repair : forall md5, (forall x, length (md5 x) = 16%na
                         fs_lookup (io_fs st') (file_path ix name) = Some data))).
 Proof. exact create_damage_verify_repair. Qed.
 Print Assumptions C01_create_damage_repair.
+
+(* ... AND WITH ARBITRARILY DAMAGED RECOVERY FILES (Proofs/Par2EndToEnd2.v).  The restriction "the surviving
+   recovery files are as written" is replaced by a packet-level hypothesis of the same kind as the two hash
+   premises: damage does not manufacture a NEW hash-valid packet of this set (recovery_packets_genuine: every packet
+   the reader accepts at any offset of any <base>.*.par2 file, with the created set id, is one Create wrote).  Then,
+   whatever else the recovery files contain - flipped, truncated, prepended, concatenated, without creator packet -
+   the loading phase never fails, every loaded block is a true block, the usable-block count is exactly the number
+   of exponents for which the resynchronising reader reaches an intact packet (block_found), and if Verify reports
+   repair as possible, Repair returns success with every protected file byte-identical, or the singular error *)
+Theorem C01_create_any_damage_repair : forall md5, (forall x, length (md5 x) = 16%nat) ->
+  forall parPath sz np names datas outs fs0 fs dbl,
+  created md5 parPath sz np names datas outs ->
+  any_damaged_archive md5 parPath sz np names datas outs fs0 fs ->
+  let ix := strip_ext parPath ++ EXT_PAR2 in
+  let orig := originals md5 sz names datas in
+  (forall name, In name names -> fs_lookup fs (file_path ix name) = None -> is_dir fs (file_path ix name) = false) ->
+  (forall name dat, In name names -> fs_lookup fs (file_path ix name) = Some dat -> wf_bytes dat) ->
+  NoDup (map (file_path ix) names) ->
+  (forall k w, (k < length orig)%nat -> length w = sz -> wf_bytes w ->
+     md5 w = md5 (nth k orig []) -> crc32 w = crc32 (nth k orig []) -> w = nth k orig []) ->
+  (forall name data data', In (name, data) (combine names datas) -> wf_bytes data' ->
+     length data' = length data -> md5 data' = md5 data -> hash16k md5 data' = hash16k md5 data -> data' = data) ->
+  exists c st1, par2_verify md5 ix (io_init fs []) = (Ok c, st1) /\
+    (c_pusable c <= np)%nat /\
+    (forall L : list nat, NoDup L -> (forall e, In e L <-> block_found md5 parPath sz names datas fs e) ->
+       c_pusable c = length L) /\
+    (repair_possible c = true ->
+     exists r rp st', par2_repair md5 ix dbl (io_init fs []) = ((r, rp), st') /\
+       (r = Err ESingular \/
+        (r = Ok tt /\ forall name data, In (name, data) (combine names datas) ->
+                        fs_lookup (io_fs st') (file_path ix name) = Some data))).
+Proof. exact create_any_damage_repair. Qed.
+Print Assumptions C01_create_any_damage_repair.
